@@ -19,6 +19,8 @@ ASSUMPTIONS = [
     "Gonze-Lee: exactness at commensurate q is asserted only at the representative strictly inside the first Brillouin zone "
     "(unique nearest reciprocal lattice point); zone-boundary commensurate points and other representatives q+G carry the "
     "truncation error of the reciprocal sum and are counted as dont_care_gonze",
+    "Gonze-Lee tolerance at interior commensurate points: max(1e-9, 30 x 1e-10**(eps_min / (tr eps / 3))) relative to the dipole scale "
+    "(the code's exp_cutoff = 1e-10 is defined with the isotropic average of the dielectric tensor)",
 ]
 
 FACTORS = [14.399652, 14.399652 / 13.605693 * 2, 2.0, 1.0, 0.5, 27.211386 * 0.52917721]
@@ -178,8 +180,15 @@ def run_commensurate(spec):
         e = np.abs(d1 - d0).max() / dscale
         worst = max(worst, e)
         asserted += 1
-        if e > 1e-9:
-            return Out(ok=False, info={"err": e}, msg="NAC (%s) changes D at commensurate q=%s: rel err %.3e" % (spec["method"], q_use.tolist(), e))
+        tol = 1e-9
+        if spec["method"] == "gonze":
+            # stated precision of the reciprocal sum: terms are dropped where exp(-K.eps.K / 4 Lambda^2) < 1e-10 for the ISOTROPIC average
+            # of eps (DynamicalMatrixGL._set_nac_params); along the softest dielectric axis the last kept term is 1e-10 ** r,
+            # r = eps_min / (tr eps / 3). Measured deviations are (1..6) x 1e-10**r; 30 x is allowed.
+            w = np.linalg.eigvalsh((eps + eps.T) / 2)
+            tol = max(1e-9, 30 * 1e-10 ** (w.min() / (w.sum() / 3)))
+        if e > tol:
+            return Out(ok=False, info={"err": e}, msg="NAC (%s) changes D at commensurate q=%s: rel err %.3e (tolerance %.1e)" % (spec["method"], q_use.tolist(), e, tol))
     return Out(ok=True, nontrivial=asserted > 0, classes=[spec["method"], "asserted:%d" % asserted, "dont_care_gonze:%d" % dont_care],
                info={"err": worst})
 
